@@ -25,7 +25,7 @@ impl Deserialize for TransactionInputs {
                 cbor_event::Len::Len(n) => arr.len() < n as usize,
                 cbor_event::Len::Indefinite => true,
             } {
-                if is_break_tag(raw, "TransactionInputs")? {
+                if is_break_tag(raw, &len, "TransactionInputs")? {
                     break;
                 }
                 arr.push(TransactionInput::deserialize(raw)?);
